@@ -141,6 +141,8 @@ pub struct Interp<R: Reg> {
     /// step at which a *structural* observer (audit / resolve) of another property first fired;
     /// the case is cut a few steps later because broken bookkeeping makes a crash likely
     structural_at: Option<usize>,
+    /// serials the reference maps knew after the previous step
+    known_prev: HashSet<u64>,
 }
 
 type FResult = Result<(), Fail>;
@@ -148,8 +150,8 @@ type FResult = Result<(), Fail>;
 /// Oracles that only observe (they do not feed the reference model): when one of them fires for a
 /// property other than the one being checked it is recorded, muted for the rest of the case, and
 /// the case continues.
-pub const OBSERVERS: [&str; 12] = [
-    "ledger", "allocator", "resolve", "resolve-same-entity", "audit", "audit-twin", "exactly-once", "exactly-once-count", "fresh-value", "value-shared", "len", "lockstep-snapshot",
+pub const OBSERVERS: [&str; 13] = [
+    "dropped-on-exit", "ledger", "allocator", "resolve", "resolve-same-entity", "audit", "audit-twin", "exactly-once", "exactly-once-count", "fresh-value", "value-shared", "len", "lockstep-snapshot",
 ];
 
 fn idx(t: u16, len: usize) -> usize {
@@ -186,6 +188,7 @@ impl<R: Reg> Interp<R> {
             foreign: Vec::new(),
             mute: true,
             structural_at: None,
+            known_prev: HashSet::new(),
         };
         s.ensure(0);
         s
@@ -219,6 +222,7 @@ impl<R: Reg> Interp<R> {
     /// Apply one operation and run every oracle.
     pub fn apply(&mut self, op: &Op) -> FResult {
         self.step += 1;
+        crate::crash::set_step(self.step);
         self.stats.ops_run += 1;
         *self.stats.op_counts.entry(op.name()).or_insert(0) += 1;
         ledger::take_made();
@@ -1052,6 +1056,29 @@ impl<R: Reg> Interp<R> {
         if let (Some(d), true) = (talloc::describe(&talloc::errors()), self.on("allocator")) {
             return Err(Fail { props: &["C05"], oracle: "allocator", msg: d, step });
         }
+        // (2b) independent of any snapshot: a value that left the reference maps in this step must
+        // have been dropped by now, and a value the maps still hold must be alive
+        {
+            let mut known: HashSet<u64> = HashSet::new();
+            for s in self.slots.iter().flatten() {
+                for comps in s.model.ents.values() {
+                    for m in comps.iter().flatten() {
+                        if m.serial != 0 {
+                            known.insert(m.serial);
+                        }
+                    }
+                }
+                known.extend(s.model.res_serial.iter().filter(|x| **x != 0));
+            }
+            if self.on("dropped-on-exit") {
+                let live: HashSet<u64> = ledger::live_serials().into_iter().collect();
+                let lingering: Vec<String> = self.known_prev.iter().filter(|x| !known.contains(x) && live.contains(x)).take(4).map(|x| format!("{x:#x}")).collect();
+                let early: Vec<String> = known.iter().filter(|x| !live.contains(x)).take(4).map(|x| format!("{x:#x}")).collect();
+                if !lingering.is_empty() || !early.is_empty() {
+                    return Err(Fail { props: &["C04"], oracle: "dropped-on-exit", msg: format!("values that left their world in this step (removed, overwritten, detached, cleared, replaced or world dropped) but were not dropped: {lingering:?}; values still held by a world but already dropped: {early:?}"), step });
+                }
+            }
+        }
         let (on_len, on_fresh, on_shared, on_resolve, on_resolve2, on_audit, on_twin, on_once, on_count, on_lock) = (
             self.on("len"), self.on("fresh-value"), self.on("value-shared"), self.on("resolve"), self.on("resolve-same-entity"), self.on("audit"), self.on("audit-twin"), self.on("exactly-once"), self.on("exactly-once-count"), self.on("lockstep-snapshot"),
         );
@@ -1279,6 +1306,19 @@ impl<R: Reg> Interp<R> {
         if want != have && on_count {
             return Err(Fail { props: &["C04", "C15"], oracle: "exactly-once-count", msg: format!("{have} live zero-sized resources but the worlds hold {want}"), step });
         }
+        // remember what the reference maps hold now (after adoption) for the next step's (2b)
+        let mut known: HashSet<u64> = HashSet::new();
+        for s in self.slots.iter().flatten() {
+            for comps in s.model.ents.values() {
+                for m in comps.iter().flatten() {
+                    if m.serial != 0 {
+                        known.insert(m.serial);
+                    }
+                }
+            }
+            known.extend(s.model.res_serial.iter().filter(|x| **x != 0));
+        }
+        self.known_prev = known;
         Ok(())
     }
 
